@@ -44,6 +44,10 @@ def make_case(rng, tid):
     names = None
     if nice and first is not None:
         names = rng.sample(NICE, min(len(NICE), len(records[first])))
+        if len(names) >= 2 and rng.random() < 0.3:
+            # a header name that occurs twice: #name is the FIRST column of that name (and so is its index)
+            a, b = sorted(rng.sample(range(len(names)), 2))
+            names[b] = names[a]
         records[first] = names + records[first][len(names):]
     comps = [lang.fn("yes")]
     if first is not None:
